@@ -78,10 +78,11 @@ def run_property(pid, tier='quick', seed=0):
     sys.path.insert(0, HERE)
     if REPO not in sys.path:
         sys.path.insert(0, REPO)
-    os.makedirs(os.path.join(HERE, 'evidence'), exist_ok=True)
-    os.makedirs(os.path.join(HERE, 'replays'), exist_ok=True)
+    OUT = os.environ.get('VERIF_OUT') or HERE  # (mutant self-tests redirect evidence and replays away from the committed files)
+    os.makedirs(os.path.join(OUT, 'evidence'), exist_ok=True)
+    os.makedirs(os.path.join(OUT, 'replays'), exist_ok=True)
     import glob
-    for old in glob.glob(os.path.join(HERE, 'replays', f'{pid}-*.json')):
+    for old in glob.glob(os.path.join(OUT, 'replays', f'{pid}-*.json')):
         os.unlink(old)
     plan = importlib.import_module(f'props.{pid}')
     ctx = Ctx(pid, tier, seed)
@@ -183,7 +184,7 @@ def run_property(pid, tier='quick', seed=0):
             shown.append(v)
     for i, v in enumerate(shown):
         v['same_obligation_failures'] = seen_what[v['what']]
-        rp = os.path.join(HERE, 'replays', f'{pid}-{i}.json')
+        rp = os.path.join(OUT, 'replays', f'{pid}-{i}.json')
         with open(rp, 'w') as f:
             json.dump({'property': pid, 'failed_obligation': v['what'], 'detail': v.get('detail'), 'inputs': v.get('inputs'),
                        'observed': v.get('observed'), 'failures_of_this_obligation': v.get('same_obligation_failures'), 'replayed_on_real_code': v['replayed'], 'solver': v.get('solver'),
@@ -213,7 +214,7 @@ def run_property(pid, tier='quick', seed=0):
           'assumptions': PYTHON_SEMANTICS + sorted(ctx.assumptions), 'wall_s': round(time.time() - t0, 2), 'violations': len(ctx.violations)}
     if crash:
         ev['coverage']['crash'] = crash[:3000]
-    with open(os.path.join(HERE, 'evidence', f'{pid}.json'), 'w') as f:
+    with open(os.path.join(OUT, 'evidence', f'{pid}.json'), 'w') as f:
         json.dump(ev, f, indent=1, default=str)
     for ln in lines:
         print(ln)
